@@ -110,7 +110,7 @@ type Conn struct {
 	// WriteBlocked lists the simulated intervals during which a client Write was blocked on a full
 	// socket buffer (end < 0: still blocked).
 	WriteBlocked [][2]time.Duration
-	// RecordWire makes the connection keep the bytes actually put on the wire per direction (after faults).
+	// RecordWire makes the connection keep the bytes actually delivered per direction (after faults).
 	RecordWire bool
 	Wire       [2][]byte
 	// ServerData is per-connection state owned by the server implementation.
@@ -470,9 +470,6 @@ func (c *Conn) enqueueLocked(d int, b []byte) {
 		c.net.w.logf("fault %s conn=%s dir=%s frame=%d rel=%d", f.Kind, c.Name, dirName[d], frame, rel)
 	}
 	seg.Data = data
-	if c.RecordWire {
-		c.Wire[d] = append(c.Wire[d], data...)
-	}
 	h.inflight = append(h.inflight, seg)
 }
 
@@ -744,6 +741,10 @@ func (c *Conn) deliver(d int, ch *Chooser) {
 		c.net.fired("split")
 	}
 	h.deliv += int64(n)
+	if c.RecordWire {
+		// only what is actually delivered: bytes queued behind a truncation never reach the reader
+		c.Wire[d] = append(c.Wire[d], part...)
+	}
 	w.logf("deliver %s conn=%s n=%d/%d", dirName[d], c.Name, n, len(seg.Data))
 	if d == S2C {
 		h.readable = append(h.readable, part...)
